@@ -1513,6 +1513,27 @@ def judgeC17 (ops : List OpRec) : List String :=
   -- other poll, so "an empty poll at the end" does not mean "drained" here)
   s.out ++ (judgeC01 ops).filter fun (l : String) => (l.splitOn "C01-undelivered").length == 1
 
+/-! ### C15 -/
+
+def judgeC15 (ops : List OpRec) : List String :=
+  let s := ops.foldl (fun (s : JSt) op =>
+    let okRes := op.result.startsWith "ok"
+    -- success only if the whole request was handed to the stream
+    let s := op.notes.foldl (fun (s : JSt) (n : List String) => match n with
+      | ["partial-frame", h, k] =>
+        if okRes then viol s "C15-success-with-partial-request" op s!"the call returned `{op.result.take 80}` although only {k} bytes of a request frame were accepted by the stream to {h}"
+        else s
+      | _ => s) s
+    -- with acks disabled no reply is awaited: the call must not fail for want of one
+    match op.toks with
+    | _ :: "produce" :: "0" :: _ =>
+      let faulted := op.evs.any (fun e => match e with | .io _ _ => true | .connect _ ok => !ok | _ => false) || !op.notes.isEmpty
+      if !faulted && op.result != "ok" && op.result != "err Kafka(3)" then viol s "C15-noack-awaited-reply" op s!"result `{op.result}`" else s
+    | _ => s) ({} : JSt)
+  -- a result is never computed from bytes that answer an earlier request: whatever a call returns must be what the
+  -- broker answered to *that* call's request — C10's demands on every offset look-up of the history
+  s.out ++ (judgeC10 ops).map fun (l : String) => l.replace "C10-" "C15-foreign-reply-"
+
 def judge (prop : String) (lines : List String) : List String :=
   let ops := parseOps lines
   match prop with
@@ -1533,6 +1554,7 @@ def judge (prop : String) (lines : List String) : List String :=
   | "C01" => judgeC01 ops
   | "C08" => judgeC08 ops
   | "C17" => judgeC17 ops
+  | "C15" => judgeC15 ops
   | _ => []
 
 end Kafka.Judge
